@@ -29,6 +29,7 @@ struct Cx<'a> {
     closures_seen: Vec<usize>,
     let_counts: std::collections::HashMap<String, usize>,
     let_hints_used: Vec<String>,
+    arm_ord: usize,
 }
 
 fn pat_idents(p: &syn::Pat, out: &mut Vec<String>) {
@@ -362,6 +363,26 @@ impl<'a, 'ast> Visit<'ast> for Cx<'a> {
     }
 
     fn visit_arm(&mut self, a: &'ast syn::Arm) {
+        // structural hint anchors: arm_start K / arm_end K (arms counted in source order)
+        let ord = self.arm_ord;
+        self.arm_ord += 1;
+        let keys = [format!("arm_start {}", ord), format!("arm_end {}", ord)];
+        let hs: Vec<(String, String)> = self.slot.hints.iter().filter(|h| keys.contains(&h.0)).cloned().collect();
+        for (w, t) in hs {
+            match &*a.body {
+                syn::Expr::Block(b) if b.label.is_none() => {
+                    if w.starts_with("arm_start") {
+                        let open = b.block.brace_token.span.open().byte_range().end;
+                        self.insert(open, format!(" {} ", t));
+                    } else {
+                        let close = b.block.brace_token.span.close().byte_range().start;
+                        self.insert(close, format!(" {} ", t));
+                    }
+                    self.let_hints_used.push(w);
+                }
+                _ => self.fail(format!("hint `{}`: the arm body is not a block", w)),
+            }
+        }
         let mut derefs = vec![];
         self.pat(&a.pat, false, &mut derefs);
         if !derefs.is_empty() {
@@ -433,7 +454,7 @@ impl<'a, 'ast> Visit<'ast> for Cx<'a> {
             let s = c.or1_token.span().byte_range().start;
             let e = c.body.span().byte_range().start;
             // by-value bindings under & in params still need their lets
-            let mut scratch = Cx { src: self.src, slot: self.slot, retarget: self.retarget, edits: vec![], log: vec![], seq: 0, err: None, loop_ord: 0, closure_ord: 0, base_line: self.base_line, loops_seen: vec![], closures_seen: vec![], let_counts: Default::default(), let_hints_used: vec![] };
+            let mut scratch = Cx { src: self.src, slot: self.slot, retarget: self.retarget, edits: vec![], log: vec![], seq: 0, err: None, loop_ord: 0, closure_ord: 0, base_line: self.base_line, loops_seen: vec![], closures_seen: vec![], let_counts: Default::default(), let_hints_used: vec![], arm_ord: 0 };
             for p in &c.inputs {
                 scratch.pat(p, false, &mut derefs);
             }
@@ -542,7 +563,18 @@ impl<'a, 'ast> Visit<'ast> for Cx<'a> {
     fn visit_expr_method_call(&mut self, m: &'ast syn::ExprMethodCall) {
         let name = m.method.to_string();
         let key = format!(".{}", name);
-        let hit = self.retarget.iter().find(|(a, _)| a == &key).map(|(_, b)| b.clone());
+        let hit = self.slot.retarget.iter().chain(self.retarget.iter()).find(|(a, _)| a == &key).map(|(_, b)| b.clone());
+        let hit = match hit {
+            Some(t) if t.starts_with('.') => {
+                // method rename: recv.method(args) => recv.target(args)
+                let r = m.method.span().byte_range();
+                let before = self.src[r.clone()].to_string();
+                self.replace(r.clone(), t[1..].to_string());
+                self.note("N11", r.start, &format!(".{}", before), &t);
+                None
+            }
+            other => other,
+        };
         if let Some(target) = hit {
             // recv.method(args) => target(recv, args)
             let whole = m.span().byte_range();
@@ -575,7 +607,7 @@ impl<'a, 'ast> Visit<'ast> for Cx<'a> {
     fn visit_expr_call(&mut self, c: &'ast syn::ExprCall) {
         if let syn::Expr::Path(p) = &*c.func {
             let key = norm(&p.to_token_stream().to_string());
-            let hit = self.retarget.iter().find(|(a, _)| !a.starts_with('.') && norm(a) == key).map(|(_, b)| b.clone());
+            let hit = self.slot.retarget.iter().chain(self.retarget.iter()).find(|(a, _)| !a.starts_with('.') && norm(a) == key).map(|(_, b)| b.clone());
             if let Some(target) = hit {
                 let r = c.func.span().byte_range();
                 let before = self.src[r.clone()].to_string();
@@ -649,7 +681,7 @@ pub fn rewrite_body(slot: &SlotSpec, found: &Found, retarget: &[(String, String)
         text = text.replacen(a.as_str(), b, 1);
     }
     let block: syn::Block = syn::parse_str(&text).map_err(|e| Undecided(format!("body does not parse: {}", e)))?;
-    let mut cx = Cx { src: &text, slot, retarget, edits: vec![], log: vec![], seq: 0, err: None, loop_ord: 0, closure_ord: 0, base_line: found.body_line_start, loops_seen: vec![], closures_seen: vec![], let_counts: Default::default(), let_hints_used: vec![] };
+    let mut cx = Cx { src: &text, slot, retarget, edits: vec![], log: vec![], seq: 0, err: None, loop_ord: 0, closure_ord: 0, base_line: found.body_line_start, loops_seen: vec![], closures_seen: vec![], let_counts: Default::default(), let_hints_used: vec![], arm_ord: 0 };
     for st in &block.stmts {
         cx.visit_stmt(st);
     }
@@ -680,7 +712,7 @@ pub fn rewrite_body(slot: &SlotSpec, found: &Found, retarget: &[(String, String)
             }
             let p = text.find(anchor).unwrap() + anchor.len();
             cx.insert(p, format!(" {} ", t));
-        } else if w.starts_with("after_let ") {
+        } else if w.starts_with("after_let ") || w.starts_with("arm_start ") || w.starts_with("arm_end ") {
             if !cx.let_hints_used.contains(w) {
                 bail!("lost anchor: hint `{}`: no such let binding", w);
             }
@@ -692,6 +724,13 @@ pub fn rewrite_body(slot: &SlotSpec, found: &Found, retarget: &[(String, String)
         } else {
             bail!("unknown hint position `{}`", w);
         }
+    }
+    if let Some(ret) = &slot.lift_return {
+        if found.lifted.is_none() {
+            bail!("lift_return on a slot that is not lifted");
+        }
+        cx.insert(close, format!(" {} ", ret));
+        cx.log.push(json!({"rule": "N9", "line": found.item_line_end, "before": "", "after": format!("lifted statements return `{}`", ret)}));
     }
     for (n, _, _) in &slot.loops {
         if !cx.loops_seen.contains(n) {
